@@ -11,7 +11,6 @@ from harness import core, pyvalues as pv
 ID = 'C07'
 TITLE = 'Reopening a saved document changes nothing'
 PROPS = ['Props/C07']
-DISABLED = True
 FUEL = 200
 
 
@@ -249,7 +248,7 @@ def gen_cells(ctx):
   rng = ctx.rng
   cols = fixture()
   out = []
-  vals = [pv.gen_value(rng) for _ in range(ctx.n(110, 1500))] + EDGE_VALUES + edge_objects()
+  vals = [pv.gen_value(rng) for _ in range(ctx.n(45, 1500))] + EDGE_VALUES + edge_objects()
   for v in vals:
     edge = len(out) >= 0 and (v is None or not isinstance(v, (int, float, str)) or rng.random() < 0.3)
     ts = [rng.choice(COLTYPES)]
@@ -270,13 +269,31 @@ def gen_cells(ctx):
       out.append((t, d, 'decoded'))
   for x in ENCODED:
     d = objtypes.decode_object(x)
-    for t in (COLTYPES if ctx.tier == 'thorough' else rng.sample(COLTYPES, 5)):
+    for t in (COLTYPES if ctx.tier == 'thorough' else rng.sample(COLTYPES, 3)):
       out.append((t, d, 'decoded-fixed'))
   if ctx.tier == 'thorough':
     for v in EDGE_VALUES + edge_objects():
       for t in COLTYPES:
         out.append((t, v, 'raw-edge'))
+  for t, vs in DIRECTED.items():
+    for v in vs:
+      out.append((t, v, 'raw-directed'))
   return out
+
+
+# what a database file can hold in a column of the type (Node stores bools as 0/1, whole floats as ints, lists as JSON text ...):
+# the values each column class's set() has a branch for
+DIRECTED = {
+  'Bool': [0, 1, 0.0, 1.0, -0.0, True, False, 2, '1', '0', None, pv.IntSub(1)],
+  'Numeric': [5, 0, -7, 2 ** 31, 2 ** 53 + 1, 10 ** 400, True, 5.0, None, 'x'],
+  'Date': [86400, 0, 1e9, None], 'DateTime:UTC': [86400, 1.5, None], 'PositionNumber': [3, 2.5], 'ManualSortPos': [3, 2.5],
+  'ChoiceList': ['[1, 2]', '["a", "b"]', '[]', '[1', '{"a": 1}', 'a', ['a', 'b'], ('a', 'b'), [], None, '[[1]]', pv.StrSub('["a"]')],
+  'Ref:T': [5.0, 0.0, -3.0, 2.0 ** 31, 2.0 ** 31 - 1, 5.5, 5, float('inf'), float('nan'), pv.FloatSub(4.0), None],
+  'RefList:T': ['[1, 2]', '[1, -2]', '[0]', '[true]', '[2147483648]', '[1.5]', '{"a": 1}', '[', 'RecordList([1, 2], group_by=None, sort_by=None)',
+                'RecordList([a])', 'x', [1, 2], None, pv.StrSub('[3]')],
+  'Attachments': ['[1, 2]', '[2147483647]', '[2147483648]', 'RecordList([4])', [1]],
+  'Text': [5, b'a', None], 'Int': [5.0, True, '5'], 'Any': [(1, 2), 0, 1.0], 'Choice': ['[1]'], 'Id': [5.0], 'Blob': [b'a', 'a'],
+}
 
 
 def lit_case(vl, tl, *rest):
@@ -390,7 +407,7 @@ def correspond_cells(ctx):
   ctx.log('literals: %d set, %d reload cases' % (len(set_cases), len(rl_cases)))
   bad = ctx.run_cases('set', IMPORTS,
                       'fun c => match c with (v, tbl, T, r) => res_eqb value_eqb (col_set (oracles_of tbl) T v) r end',
-                      set_cases, shard=120, timeout=TIMEOUT(ctx), case_type='(value * tables * ctype * result value)%type')
+                      set_cases, shard=60 if ctx.tier == 'quick' else 120, timeout=TIMEOUT(ctx), case_type='(value * tables * ctype * result value)%type')
   for k in bad[:6]:
     t, v = set_meta[k]
     ctx.broken('correspondence:model col_set differs from column.set',
@@ -398,7 +415,7 @@ def correspond_cells(ctx):
   bad = ctx.run_cases('reload', IMPORTS,
                       'fun c => match c with (v, tbl, T, mp, err, r) => res_eqb cell_eqb '
                       '(reload (oracles_of tbl) (marshal_of mp) (unmarshal_of mp) T %d (v, err)) r end' % FUEL,
-                      rl_cases, shard=120, timeout=TIMEOUT(ctx),
+                      rl_cases, shard=60 if ctx.tier == 'quick' else 120, timeout=TIMEOUT(ctx),
                       case_type='(value * tables * ctype * list (value * list Z) * option str * result cell)%type')
   for k in bad[:6]:
     t, v = rl_meta[k]
@@ -462,10 +479,10 @@ def correspond_compare(ctx):
   stored = getattr(ctx, '_c07_stored', [])
   pairs = []
   pool = [raw for _t, raw, _r in stored]
-  for t, raw, rl in stored:
+  for t, raw, rl in (stored if ctx.tier == 'thorough' else rng.sample(stored, min(len(stored), 160))):
     if rl is not None:
       pairs.append((raw, rl, 'saved-vs-reloaded'))
-  for _ in range(ctx.n(200, 2500)):
+  for _ in range(ctx.n(90, 2500)):
     a = rng.choice(pool)
     k = rng.random()
     if k < 0.35:
@@ -513,14 +530,14 @@ def correspond_compare(ctx):
         ctx.count('e' + lit, nontrivial=True, kind='equal_encoding:%s:%s' % (how, r))
   ctype = '(value * value * tables * bool)%type'
   bad = ctx.run_cases('strict', IMPORTS, 'fun c => match c with (a, b, tbl, r) => Bool.eqb (strict_equal (oracles_of tbl) a b) r end',
-                      se_cases, shard=150, timeout=TIMEOUT(ctx), case_type=ctype)
+                      se_cases, shard=80 if ctx.tier == 'quick' else 150, timeout=TIMEOUT(ctx), case_type=ctype)
   for k in bad[:6]:
     a, b = se_meta[k]
     ctx.broken('correspondence:model strict_equal differs from objtypes.strict_equal',
                '%s vs %s -> %r' % (pv.to_expr(a)[:100], pv.to_expr(b)[:100], objtypes.strict_equal(a, b)))
   bad = ctx.run_cases('equalenc', IMPORTS,
                       'fun c => match c with (a, b, tbl, r) => Bool.eqb (equal_encoding (oracles_of tbl) %d a b) r end' % FUEL,
-                      ee_cases, shard=150, timeout=TIMEOUT(ctx), case_type=ctype)
+                      ee_cases, shard=80 if ctx.tier == 'quick' else 150, timeout=TIMEOUT(ctx), case_type=ctype)
   for k in bad[:6]:
     a, b = ee_meta[k]
     ctx.broken('correspondence:model equal_encoding differs from objtypes.equal_encoding',
@@ -653,8 +670,9 @@ def correspond_engine_changes(ctx):
   data cell it reads was updated; the model must say whether the cell's object was replaced and whether a stored action names it."""
   from harness import gristenv as G
   rng = ctx.rng
-  pairs = [(a, b) for a in CHANGE_VALUES[:12] for b in CHANGE_VALUES[:12]]
-  pairs += [(rng.choice(CHANGE_VALUES), rng.choice(CHANGE_VALUES)) for _ in range(ctx.n(60, 600))]
+  k0 = 12 if ctx.tier == 'thorough' else 9
+  pairs = [(a, b) for a in CHANGE_VALUES[:k0] for b in CHANGE_VALUES[:k0]]
+  pairs += [(rng.choice(CHANGE_VALUES), rng.choice(CHANGE_VALUES)) for _ in range(ctx.n(40, 600))]
   pairs += [(v, clone(v)) for v in CHANGE_VALUES]
   cases, meta = [], []
   for k in range(0, len(pairs), 40):
@@ -748,7 +766,7 @@ def make_gen(rng, rich):
       self.pend(tid, cid, level)
       return ['AddColumn', tid, cid, {'type': 'Any', 'isFormula': True, 'formula': r.choice(PROBES) % r.choice(own)['colId']}]
 
-  w = {'addtrigger': 6, 'addprobe': 8 if rich else 0, 'todata': 3, 'invalid': 1, 'summary': 1, 'label': 0}
+  w = {'addtrigger': 6, 'addprobe': 8 if rich else 3, 'todata': 3, 'invalid': 1, 'summary': 1, 'label': 0}
   return Gen(rng, weights=w)
 
 
@@ -813,7 +831,11 @@ def lossy_cells(e, f):
           if not stub:
             # only objects of the known lossy classes count as the known finding; a differing cell whose saved object is
             # made of None/bool/short int/float/str/list/str-keyed dict/date only is something else
-            out.append((t, cid, r, 'rich' if richer_than_encoding(a) else 'other'))
+            # ... and only where the column class stores what it is given: Any and Blob (and the RecordList a
+            # reference-list column keeps); the other types normalise on set, which is what the theorems rely on
+            tn = type(col.type_obj).__name__
+            where = tn in ('Any', 'Blob') or (tn in ('ReferenceList', 'Attachments') and type(a).__name__ == 'RecordList')
+            out.append((t, cid, r, 'rich' if where and richer_than_encoding(a) else 'other'))
   return out
 
 
@@ -900,6 +922,7 @@ def search(ctx):
   reported = collections.Counter()
   for h in range(n_hist):
     rich = h % 3 == 2
+    typed = h % 3 == 1
     seed = ctx.rng.getrandbits(48)
     rng = random.Random(seed)
     gen = make_gen(rng, rich)
@@ -907,6 +930,17 @@ def search(ctx):
     history = []
     for step in range(nb + 2):
       bundle = [gen.gen_addtable(histgen.Meta(e))] if step < 1 else gen.bundle(e)
+      if typed and step < 2:
+        # the typed stream starts from one data column of each type and formulas that show the exact objects read from them
+        if step == 0:
+          tys = ['ChoiceList', 'Bool', 'Numeric', 'Date', 'Int', 'Text', 'Choice', 'DateTime:UTC', 'Any']
+          cols = [{'id': 'c%d' % i, 'type': ty, 'isFormula': False} for i, ty in enumerate(tys)]
+          cols += [{'id': 'p%d' % i, 'type': 'Any', 'isFormula': True, 'formula': rng.choice(['repr($c%d)', 'type($c%d).__name__']) % i}
+                   for i in range(len(tys))]
+          bundle = [['AddTable', 'Typed', cols]]
+        else:
+          tys = ['ChoiceList', 'Bool', 'Numeric', 'Date', 'Int', 'Text', 'Choice', 'DateTime:UTC', 'Any']
+          bundle = [['BulkAddRecord', 'Typed', [None] * 3, {'c%d' % i: [gen.value(ty) for _ in range(3)] for i, ty in enumerate(tys)}]]
       if rich and step < 2:
         # the rich stream starts from a data column R filled by a trigger formula and a formula P that inspects it
         if step == 0:
@@ -934,7 +968,7 @@ def search(ctx):
       n_err = sum(1 for t in G.user_tables(e) for c in e.tables[t].all_columns.values() for r in e.tables[t].row_ids
                   if type(c.raw_get(r)).__name__ == 'RaisedException')
       ctx.count(('reload', seed, step), nontrivial=len(G.user_tables(e)) > 0 and any(e.tables[t].row_ids for t in G.user_tables(e)),
-                kind='search:%s:%s' % ('rich' if rich else 'plain', '+'.join(k for k, _w in res) if res else ('ok+errors' if n_err else 'ok')))
+                kind='search:%s:%s' % ('rich' if rich else ('typed' if typed else 'plain'), '+'.join(k for k, _w in res) if res else ('ok+errors' if n_err else 'ok')))
       for kind, what in res:
         reported[kind] += 1
         if reported[kind] > (1 if kind != 'unexplained' else 4):
